@@ -1,4 +1,4 @@
-\* thorough: 3 contracts, 2 groups, stack depth <= 3, <= 2 table changes per transaction, 2 transactions (same / next block), leaf frames without ReadStates; no try blocks
+\* quick: ONE transaction, 3 contracts, 2 groups, stack depth <= 3, <= 2 table changes, no try blocks
 SPECIFICATION ISpec
 CONSTANTS
   Universe = "quick"
@@ -8,7 +8,7 @@ CONSTANTS
   InitTables <- MCInitTables
   MaxDepth = 3
   MaxChanges = 2
-  MaxTx = 2
+  MaxTx = 1
   WithTry = FALSE
   WithNoRS = TRUE
 INVARIANTS ImplAgrees Coherent
